@@ -5,6 +5,7 @@ import (
 	"go/ast"
 	"go/token"
 	"go/types"
+	"regexp"
 	"sort"
 	"strings"
 
@@ -1063,6 +1064,13 @@ func detAnalyse(p *engine.Prog, r *engine.Report, rule string, entries []*ssa.Fu
 				}
 				continue
 			}
+			// a confirmed instance that moved (enclosing function extracted / renamed): the same loop is
+			// recognised by its effect fingerprint (closure names normalised) together with either the same
+			// ranged expression or a named callee in the fingerprint; anything else stays a new case
+			if ent, from, okM := movedInstance(key, fp); okM {
+				r.OK(rule+"/A3", key, s.pos, "confirmed instance (moved from "+from+"): "+ent.reason+" ["+fp+"]")
+				continue
+			}
 			r.Bad(rule+"/A3", key, s.pos, "iteration in unspecified order with order-relevant effects ["+fp+"] (no sort / keyed-write idiom recognised, not a confirmed instance)")
 		}
 	}
@@ -1081,6 +1089,43 @@ func detAnalyse(p *engine.Prog, r *engine.Report, rule string, entries []*ssa.Fu
 }
 
 type detEntry struct{ fp, reason string }
+
+var closureNameRe = regexp.MustCompile(`[A-Za-z_][A-Za-z0-9_.]*\$[0-9]+`)
+
+// movedInstance looks for a table entry that describes the same loop under another enclosing
+// function: equal fingerprints after normalising closure names, plus the same "kind expr" part of the
+// key or a named (non-closure) callee in the fingerprint.
+func movedInstance(key, fp string) (detEntry, string, bool) {
+	norm := func(x string) string { return closureNameRe.ReplaceAllString(x, "$$closure") }
+	kindExpr := func(k string) string {
+		if i := strings.Index(k, "|"); i >= 0 {
+			return k[i+1:]
+		}
+		return k
+	}
+	named := false
+	for _, tok := range strings.Fields(norm(fp)) {
+		if (strings.HasPrefix(tok, "callmut:") || strings.HasPrefix(tok, "callw:")) && !strings.Contains(tok, "$closure") {
+			named = true
+		}
+	}
+	var keys []string
+	for k := range detTable {
+		keys = append(keys, k)
+	}
+	sort.Strings(keys)
+	for _, k := range keys {
+		for _, ent := range detTable[k] {
+			if norm(ent.fp) != norm(fp) {
+				continue
+			}
+			if kindExpr(k) == kindExpr(key) || named {
+				return ent, k, true
+			}
+		}
+	}
+	return detEntry{}, "", false
+}
 
 // detTable: instances confirmed by reading (DESIGN appendix A); key = function|kind expr,
 // fp = the effect fingerprint at confirmation time. A changed fingerprint re-opens the case.
